@@ -716,7 +716,7 @@ func init() {
 	addMutant(Mutant{Name: "c14-revert-keychain-fix", Props: []string{"C14"}, Rule: "R-NILIFACE", KeySub: "bcrypt",
 		Why: "the bcrypt factory drops the keychain again",
 		Edits: []Edit{{File: "cmds/server/config/authenticators/bcrypt/bcrypt.go", Old: `	return &Authenticator{loggerProvider: a.loggerProvider, username: username, supportedOptions: opts, getSecret: a.getSecret}, nil`, New: `	return &Authenticator{loggerProvider: a.loggerProvider, username: username, supportedOptions: opts}, nil`}}})
-	addMutant(Mutant{Name: "c14-getuser-unchecked", Props: []string{"C14", "C10"}, Rule: "R-NILCHECK", KeySub: "AuthenticatePAP",
+	addMutant(Mutant{Name: "c14-getuser-unchecked", Props: []string{"C14"}, Rule: "R-NILCHECK", KeySub: "AuthenticatePAP",
 		Why: "the nil check after GetUser is dropped in the PAP handler: unknown users crash the server",
 		Edits: []Edit{{File: "cmds/server/handlers/authen_pap.go", Old: `	c := a.GetUser(string(body.User))
 	if c == nil {`, New: `	c := a.GetUser(string(body.User))
@@ -888,4 +888,174 @@ func init() {
 	if a.Len() != serverMsgLen+dataLen {
 		return NewBadSecretErr("bad secret detected acctreply")
 	}`}}})
+}
+
+func init() {
+	// ---- C10 ------------------------------------------------------------------------------
+	addMutant(Mutant{Name: "c10-default-authenticator-pass", Props: []string{"C10"}, Rule: "R-PROVENANCE", KeySub: "",
+		Why: "users without an authenticator are passed",
+		Edits: []Edit{{File: "cmds/server/config/aaa.go", Old: `			tq.SetAuthenReplyStatus(tq.AuthenStatusFail),
+			tq.SetAuthenReplyServerMsg("authentication denied"),`, New: `			tq.SetAuthenReplyStatus(tq.AuthenStatusPass),
+			tq.SetAuthenReplyServerMsg("authentication denied"),`}}})
+	addMutant(Mutant{Name: "c10-inverted-compare", Props: []string{"C10"}, Rule: "R-PROVENANCE", KeySub: "bcrypt",
+		Why: "the bcrypt result test is inverted",
+		Edits: []Edit{{File: "cmds/server/config/authenticators/bcrypt/bcrypt.go", Old: `[]byte(password)); err == nil {`, New: `[]byte(password)); err != nil {`}}})
+	addMutant(Mutant{Name: "c10-getuser-constant", Props: []string{"C10"}, Rule: "R-PROVENANCE", KeySub: "authenticator-binding",
+		Why: "the PAP handler always verifies against the user 'admin'",
+		Edits: []Edit{{File: "cmds/server/handlers/authen_pap.go", Old: `	c := a.GetUser(string(body.User))`, New: `	c := a.GetUser("admin")`}}})
+	addMutant(Mutant{Name: "c10-password-not-from-request", Props: []string{"C10"}, Rule: "R-PROVENANCE", KeySub: "bcrypt",
+		Why: "the authenticator compares the stored hash with the user name instead of the supplied password",
+		Edits: []Edit{{File: "cmds/server/config/authenticators/bcrypt/bcrypt.go", Old: `bcrypt.CompareHashAndPassword(expectedHash, []byte(password))`, New: `bcrypt.CompareHashAndPassword(expectedHash, []byte(a.username+password[:0]))`}}})
+	addMutant(Mutant{Name: "c10-empty-password-reaches-authenticator", Props: []string{"C10"}, Rule: "R-ORDER", KeySub: "empty-password",
+		Why: "the empty-password shortcut of the ASCII flow is removed",
+		Edits: []Edit{{File: "cmds/server/handlers/authen_ascii.go", Old: `	if len(body.UserMessage) == 0 {
+		authenASCIIGetPasswordMissingPassword.Inc()`, New: `	if len(body.UserMessage) == 0 && len(body.Data) > 9999 {
+		authenASCIIGetPasswordMissingPassword.Inc()`}}})
+	addMutant(Mutant{Name: "c10-factory-error-keeps-user", Props: []string{"C10"}, Rule: "R-ORDER", KeySub: "authenticator-factory-error",
+		Why: "a user whose authenticator cannot be built is still added (with whatever handlers were collected)",
+		Edits: []Edit{{File: "cmds/server/loader/loader.go", Old: `						l.Errorf(l.ctx, "authenticator factory error in scope [%v], user [%v] will not be added; %v", provider.Name, u.Name, err)
+						continue
+					}
+					opts = append(opts, config.SetAAAAuthenticator(a))`, New: `						l.Errorf(l.ctx, "authenticator factory error in scope [%v], user [%v] will not be added; %v", provider.Name, u.Name, err)
+					} else {
+						opts = append(opts, config.SetAAAAuthenticator(a))
+					}`}}})
+	addMutant(Mutant{Name: "c10-getpass-state-via-getuser-reply", Props: []string{"C10"}, Rule: "R-PROVENANCE", KeySub: "next",
+		Why: "the initial handler registers the password continuation directly with its GETUSER prompt: the user name is then taken as password state",
+		Edits: []Edit{{File: "cmds/server/handlers/authen_ascii.go", Old: `		response.Next(tq.HandlerFunc(a.getUsername))`, New: `		response.Next(tq.HandlerFunc(a.getPassword))`}}})
+	addMutant(Mutant{Name: "c10-username-from-data", Props: []string{"C10"}, Rule: "R-PROVENANCE", KeySub: "authenticator-binding",
+		Why: "the user name is taken from the data field of the CONTINUE",
+		Edits: []Edit{{File: "cmds/server/handlers/authen_ascii.go", Old: `		a.username = string(body.UserMessage)`, New: `		a.username = string(body.Data) + string(body.UserMessage)`}}})
+}
+
+func init() {
+	// ---- C13 ------------------------------------------------------------------------------
+	addMutant(Mutant{Name: "c13-allow-before-deny", Props: []string{"C13"}, Rule: "R-ADMIT", KeySub: "order",
+		Why: "the allow list is consulted before the deny list",
+		Edits: []Edit{{File: "cmds/server/loader/loader.go", Old: `				if prefixDeny.deny(q.remote) {
+					q.cb <- secretProvider{err: fmt.Errorf("remote address connection not allowed by prefixDeny filter [%v]", q.remote.String())}
+					close(q.cb)
+					return
+				}
+				if !prefixAllow.allow(q.remote) {
+					q.cb <- secretProvider{err: fmt.Errorf("remote address connection not allowed by prefixAllow filter [%v]", q.remote.String())}
+					close(q.cb)
+					return
+				}`, New: `				if prefixAllow.allow(q.remote) && len(prefixAllow.known) > 0 {
+					secret, handler, err := l.get(q.ctx, providers, q.remote)
+					q.cb <- secretProvider{secret: secret, handler: handler, err: err}
+					close(q.cb)
+					return
+				}
+				if prefixDeny.deny(q.remote) {
+					q.cb <- secretProvider{err: fmt.Errorf("remote address connection not allowed by prefixDeny filter [%v]", q.remote.String())}
+					close(q.cb)
+					return
+				}
+				if !prefixAllow.allow(q.remote) {
+					q.cb <- secretProvider{err: fmt.Errorf("remote address connection not allowed by prefixAllow filter [%v]", q.remote.String())}
+					close(q.cb)
+					return
+				}`}}})
+	addMutant(Mutant{Name: "c13-filters-swapped-at-build", Props: []string{"C13"}, Rule: "R-ADMIT", KeySub: "",
+		Why: "the deny filter is built from prefix_allow and vice versa",
+		Edits: []Edit{{File: "cmds/server/loader/loader.go", Old: `	prefixDeny := newPrefixFilter(strToIPNet(c.PrefixDeny))
+	prefixAllow := newPrefixFilter(strToIPNet(c.PrefixAllow))`, New: `	prefixDeny := newPrefixFilter(strToIPNet(c.PrefixAllow))
+	prefixAllow := newPrefixFilter(strToIPNet(c.PrefixDeny))`}}})
+	addMutant(Mutant{Name: "c13-hasscope-filter-dropped", Props: []string{"C13"}, Rule: "R-ADMIT", KeySub: "users-scoped",
+		Why: "every user is added to every scope",
+		Edits: []Edit{{File: "cmds/server/loader/loader.go", Old: `			if !u.HasScope(provider.Name) {
+				// nope, skip
+				continue
+			}`, New: `			if !u.HasScope(provider.Name) && len(u.Scopes) > 0 && u.Scopes[0] == "" {
+				// nope, skip
+				continue
+			}`}}})
+	addMutant(Mutant{Name: "c13-keep-serving-after-lookup-failure", Props: []string{"C13"}, Rule: "R-ADMIT", KeySub: "refusal",
+		Why: "a refused connection is only logged; serving continues with a nil handler check removed for the secret",
+		Edits: []Edit{{File: "server.go", Old: `	if err != nil || secret == nil || handler == nil {`, New: `	if err != nil || handler == nil {`}}})
+	addMutant(Mutant{Name: "c13-empty-deny-list-denies", Props: []string{"C13"}, Rule: "R-ADMIT", KeySub: "deny-semantics",
+		Why: "an empty deny list refuses non-TCP and then everything falls to match: the early 'no opinion' return is dropped",
+		Edits: []Edit{{File: "cmds/server/loader/prefix_filter.go", Old: `func (p prefixFilter) deny(remote net.Addr) bool {
+	if len(p.known) < 1 {
+		return false
+	}`, New: `func (p prefixFilter) deny(remote net.Addr) bool {`}}})
+	addMutant(Mutant{Name: "c13-scan-last-match-wins", Props: []string{"C13"}, Rule: "R-ADMIT", KeySub: "first-match-wins",
+		Why: "the scan remembers the last matching provider instead of returning the first",
+		Edits: []Edit{{File: "cmds/server/loader/loader.go", Old: `		secretKnown.Inc()
+		return secret, handler, err
+	}
+	secretUnknown.Inc()
+	return nil, nil, fmt.Errorf("remote [%v] has no secret providers", remote)`, New: `		secretKnown.Inc()
+		lastS, lastH = secret, handler
+	}
+	if lastS != nil {
+		return lastS, lastH, nil
+	}
+	secretUnknown.Inc()
+	return nil, nil, fmt.Errorf("remote [%v] has no secret providers", remote)`},
+			{File: "cmds/server/loader/loader.go", Old: `	for _, sp := range providers {
+		secret, handler, err := sp.Get(ctx, remote)`, New: `	var lastS []byte
+	var lastH tq.Handler
+	for _, sp := range providers {
+		secret, handler, err := sp.Get(ctx, remote)`}}})
+	addMutant(Mutant{Name: "c13-keychain-of-first-secret", Props: []string{"C13"}, Rule: "R-ADMIT", KeySub: "provider-bound",
+		Why: "every provider gets the keychain function of the first secret configuration",
+		Edits: []Edit{{File: "cmds/server/loader/loader.go", Old: `		secretFunc := l.keychainProvider.Add(provider.Secret)`, New: `		secretFunc := l.keychainProvider.Add(c.Secrets[0].Secret)`}}})
+}
+
+func init() {
+	addMutant(Mutant{Name: "c09-table-shared-by-connections", Props: []string{"C09"}, Rule: "R-CONFINED", KeySub: "table-per-connection",
+		Why: "one session table for the whole process: equal session ids on two connections meet",
+		Edits: []Edit{{File: "server.go", Old: `	sessionProvider := newSessionProvider()
+	defer sessionProvider.close()`, New: `	sessionProvider := processSessions
+	defer sessionProvider.close()`},
+			{File: "server.go", Old: `// DeadlineListener is a net.Listener`, New: `var processSessions = newSessionProvider()
+
+// DeadlineListener is a net.Listener`}}})
+	addMutant(Mutant{Name: "c09-delete-evicts-any", Props: []string{"C09"}, Rule: "R-CONFINED", KeySub: "delete-own-session",
+		Why: "finishing a session also drops one arbitrary other session of the connection",
+		Edits: []Edit{{File: "sessions.go", Old: `	delete(s.known, session)
+}`, New: `	delete(s.known, session)
+	for other := range s.known {
+		delete(s.known, other)
+		break
+	}
+}`}}})
+	addMutant(Mutant{Name: "c09-response-hoisted", Props: []string{"C09"}, Rule: "R-LOOP", KeySub: "e:response",
+		Why: "one response object for the connection: a continuation left by one session is seen after another session's packet",
+		Edits: []Edit{{File: "server.go", Old: `			resp := &response{ctx: req.Context, crypter: c, loggerProvider: s.loggerProvider, header: req.Header}`,
+			New: `			if connResp == nil {
+				connResp = &response{}
+			}
+			resp := connResp
+			resp.ctx, resp.crypter, resp.loggerProvider, resp.header = req.Context, c, s.loggerProvider, req.Header`},
+			{File: "server.go", Old: `	sessionProvider := newSessionProvider()
+	defer sessionProvider.close()`, New: `	sessionProvider := newSessionProvider()
+	defer sessionProvider.close()
+	var connResp *response`}}})
+	addMutant(Mutant{Name: "c09-ascii-handler-shared", Props: []string{"C09"}, Rule: "R-CONFINED", KeySub: "AuthenticateASCII",
+		Why: "the ASCII login handler (which remembers the user name between packets) is one object per process",
+		Edits: []Edit{{File: "cmds/server/handlers/authen_ascii.go", Old: `	return &AuthenticateASCII{loggerProvider: l, configProvider: c, username: username, recorderWriter: newPacketLogger(l)}`,
+			New: `	if sharedASCII == nil {
+		sharedASCII = &AuthenticateASCII{loggerProvider: l, configProvider: c, recorderWriter: newPacketLogger(l)}
+	}
+	sharedASCII.username = username
+	return sharedASCII`},
+			{File: "cmds/server/handlers/authen_ascii.go", Old: `// NewAuthenticateASCII ...`, New: `var sharedASCII *AuthenticateASCII
+
+// NewAuthenticateASCII ...`}}})
+	addMutant(Mutant{Name: "c09-update-under-request-key", Props: []string{"C09", "C08"}, Rule: "R-LOOP", KeySub: "updater-body",
+		Why: "update stores the continuation into whichever entry iteration finds first, not the session's own",
+		Edits: []Edit{{File: "sessions.go", Old: `func (s *sessions) update(h Header, n Handler) {
+	s.Lock()
+	defer s.Unlock()
+`, New: `func (s *sessions) update(h Header, n Handler) {
+	s.Lock()
+	defer s.Unlock()
+	for id := range s.known {
+		h.SessionID = id
+		break
+	}
+`}}})
 }
